@@ -104,6 +104,21 @@ public class BigRat {
         return new StringValue(q.toString());
     }
 
+    /** a rounded to d decimal places (nearest; d is a TLC int >= 0): a rational with denominator 10^d */
+    public static Value RRoundDec(Value a, Value d) {
+        BigInteger[] x = parse(a);
+        int k = ((IntValue) d).val;
+        BigInteger sc = BigInteger.TEN.pow(k);
+        BigInteger n = x[0], den = x[1];
+        if (den.signum() < 0) { n = n.negate(); den = den.negate(); }
+        BigInteger num = n.multiply(sc).multiply(BigInteger.TWO).add(den);
+        BigInteger dd = den.multiply(BigInteger.TWO);
+        BigInteger[] qr = num.divideAndRemainder(dd);
+        BigInteger q = qr[0];
+        if (qr[1].signum() < 0) q = q.subtract(BigInteger.ONE);
+        return mk(q, sc);
+    }
+
     /** a^n for an integer n (TLC int, may be negative) */
     public static Value RPow(Value a, Value n) {
         BigInteger[] x = parse(a);
